@@ -18,7 +18,7 @@ LEVEL_TEXT = ("Static structural proof of necessary conditions: (R9.1) every fun
               "registered as DEFINITION_INVALID and reachable from the dictionary, HED_DEF_EXPAND_INVALID as "
               "DEF_EXPAND_INVALID from string validation. The content of an expansion, the shrink/expand round trip "
               "beyond R9.1 and interleavings with copy/validate are NOT decided.")
-LEVEL_EXTRA = 'Added after the seeded evaluation: (R9.5) HedTag.__deepcopy__ copies the cached expansion, its flag and the parent link; (R9.6) validators obtain expansions with a copy of the tag; (R9.7) every access to a definition table case-folds with casefold (one frozen exception: keys copied from another table); (R9.8) the nested-Def search in definition contents is recursive.'
+LEVEL_EXTRA = 'Added after the seeded evaluation: (R9.5) HedTag.__deepcopy__ copies the cached expansion, its flag and the parent link; (R9.6) validators obtain expansions with a copy of the tag; (R9.7) every access to a definition table case-folds with casefold (one frozen exception: keys copied from another table); (R9.8) the nested-Def search in definition contents is recursive. (R9.9) the Def-expand content test compares sorted forms of both groups.'
 
 ROWS = [{"key": "DefinitionErrors." + k, "code": "DEFINITION_INVALID"} for k in (
     "WRONG_NUMBER_GROUPS", "WRONG_NUMBER_TAGS", "NO_DEFINITION_CONTENTS", "INVALID_DEFINITION_EXTENSION",
@@ -300,3 +300,33 @@ def run(ctx):
             ctx.check(g is not None and g[1] is False, "R9.2", add.qualname, s_.ast, loc(add, s_.ast),
                       "merging dictionaries overwrites an existing definition of the same name instead of reporting and "
                       "ignoring the duplicate", desc="_add_definition keeps the first definition of a name")
+
+    # ---------------- R9.9: 'equals that expansion up to sibling order'
+    ctx.rule("R9.9", "the Def-expand content test compares order-normalised (sorted) forms of both groups")
+    from sa.dataflow import ReachingDefs, depends_on
+    dv = prog.find_class("DefValidator")
+    vdc = dv.methods.get("_validate_def_contents")
+    if vdc is None:
+        raise AnalysisError("anchor DefValidator._validate_def_contents vanished")
+    ctx.saw(vdc)
+    vv9 = view(ctx, vdc)
+    rd9 = ReachingDefs(vdc)
+    sites = [(n_, c) for (n_, c) in vv9.calls(lambda c: call_name(c).startswith("format_error") and "HED_DEF_EXPAND_INVALID" in norm(c))]
+    ctx.floor("R9.9", "HED_DEF_EXPAND_INVALID sites", len(sites), 1)
+    is_sorted = lambda y: isinstance(y, ast.Call) and isinstance(y.func, ast.Attribute) and y.func.attr in ("sorted", "_sorted")
+    is_expansion = lambda y: isinstance(y, ast.Call) and call_name(y) == "get_definition"
+
+    def expansion_compares(t):
+        return [x for x in ast.walk(t) if isinstance(x, ast.Compare) and len(x.ops) == 1 and isinstance(x.ops[0], (ast.NotEq, ast.Eq))
+                and any(depends_on(rd9, side, t, is_expansion) for side in (x.left, x.comparators[0]))]
+    for n_, c in sites:
+        g = vv9.guard_for(n_, lambda t: bool(expansion_compares(t)))
+        cmp_ = expansion_compares(g[0].ast)[0] if g is not None else None
+        if cmp_ is None:
+            raise AnalysisError("R9.9 anchor: no comparison with the expansion guards HED_DEF_EXPAND_INVALID")
+        ok = all(depends_on(rd9, side, cmp_, is_sorted) for side in (cmp_.left, cmp_.comparators[0]))
+        ctx.check(ok, "R9.9", vdc.qualname, cmp_, loc(vdc, cmp_),
+                  "`%s` compares the written Def-expand group with the expansion using group equality, which is order-sensitive, "
+                  "and the stored definition contents are sorted: `(Def-expand/D, (Red, Blue))` is rejected for the definition "
+                  "`(Definition/D, (Red, Blue))` while `(Def-expand/D, (Blue, Red))` is accepted" % norm(cmp_)[:60],
+                  desc="Def-expand content compared on sorted forms")
